@@ -278,6 +278,9 @@ var escapeCache = map[*ssa.Alloc]bool{}
 // nonRetaining: callees with a pure contract (no heap effect, cannot retain their arguments); set by the engine.
 var nonRetaining func(name string) bool
 
+// currentPure: callees declared pure by the contract of the function being encoded (set by Enc.run).
+var currentPure = map[string]bool{}
+
 func escapes(a *ssa.Alloc) bool {
 	if r, ok := escapeCache[a]; ok {
 		return r
@@ -305,6 +308,12 @@ func escapes(a *ssa.Alloc) bool {
 				}
 			case *ssa.IndexAddr:
 				if walk(r, depth+1) {
+					return true
+				}
+			case *ssa.Call:
+				// passed to a callee that neither writes the heap nor retains its arguments
+				n := calleeName(&r.Call)
+				if !(isEffectFree(n) || (nonRetaining != nil && nonRetaining(n))) {
 					return true
 				}
 			case *ssa.Slice:
